@@ -339,6 +339,93 @@ def run_cases(ck, fw, cases, timeout=3000, nvx=False):
     return ck.run_impl("ws_recv.py", {"fw": fw, "cases": cases}, nvx=nvx, timeout=timeout)["results"]
 
 
+# ---------------- configuration plumbing: factory.setProtocolOptions() -> the protocol's effective options
+#
+# Every case of this check (and of C16) configures the receiver through factory.setProtocolOptions(); the Gallina
+# configuration (coq_cfg) is built from the same case fields.  The correspondence is only as good as that plumbing, so it
+# is exercised on its own: each option is set in one call, in a call followed / preceded by a call that sets another
+# option (or nothing), together with another option in one call, set and set back, and all at once -- on both factories.
+# After a real opening handshake the PROTOCOL's option vector must be: documented default, overridden by the calls in
+# order.
+CONFIG_DEFAULT = {
+    "common": dict(utf8validateIncoming=True, applyMask=True, maxFramePayloadSize=0, maxMessagePayloadSize=0,
+                   autoFragmentSize=0, failByDrop=True, echoCloseCodeReason=False, openHandshakeTimeout=5,
+                   closeHandshakeTimeout=1, tcpNoDelay=True, autoPingInterval=0, autoPingTimeout=0, autoPingSize=12,
+                   autoPingRestartOnAnyTraffic=True),
+    "server": dict(requireMaskedClientFrames=True, maskServerFrames=False, webStatus=True, serveFlashSocketPolicy=False,
+                   allowNullOrigin=True, maxConnections=0, trustXForwardedFor=0),
+    "client": dict(acceptMaskedServerFrames=False, maskClientFrames=True, serverConnectionDropTimeout=1),
+}
+CONFIG_ALT = dict(utf8validateIncoming=False, applyMask=False, maxFramePayloadSize=77, maxMessagePayloadSize=99,
+                  autoFragmentSize=5, failByDrop=False, echoCloseCodeReason=True, openHandshakeTimeout=7,
+                  closeHandshakeTimeout=3, tcpNoDelay=False, autoPingInterval=11, autoPingTimeout=4, autoPingSize=16,
+                  autoPingRestartOnAnyTraffic=False, requireMaskedClientFrames=False, maskServerFrames=True, webStatus=False,
+                  serveFlashSocketPolicy=True, allowNullOrigin=False, maxConnections=9, trustXForwardedFor=2,
+                  acceptMaskedServerFrames=True, maskClientFrames=False, serverConnectionDropTimeout=6)
+# the options the C02 / C16 models read (cfg record of Model/WsRecv.v, send guard of Model/WsSendGuard.v) or that decide
+# what the send path writes; a wrong value of any OTHER option is logged, not judged here (not a C02 / C16 statement)
+MODEL_OPTIONS = ("failByDrop", "utf8validateIncoming", "applyMask", "maxFramePayloadSize", "maxMessagePayloadSize",
+                 "echoCloseCodeReason", "requireMaskedClientFrames", "acceptMaskedServerFrames", "autoFragmentSize",
+                 "maskServerFrames", "maskClientFrames")
+
+
+def config_cases(role):
+    dflt = dict(CONFIG_DEFAULT["common"], **CONFIG_DEFAULT[role])
+    opts = list(dflt)
+    out = []
+    for x in opts:
+        out.append((f"{x} alone", [{x: CONFIG_ALT[x]}]))
+        out.append((f"{x} then an empty call", [{x: CONFIG_ALT[x]}, {}]))
+        out.append((f"{x} set and set back", [{x: CONFIG_ALT[x]}, {x: dflt[x]}]))
+    for x in opts:
+        if x not in MODEL_OPTIONS:
+            continue
+        for y in opts:
+            if y == x:
+                continue
+            out.append((f"{x} then {y}", [{x: CONFIG_ALT[x]}, {y: CONFIG_ALT[y]}]))
+            out.append((f"{y} then {x}", [{y: CONFIG_ALT[y]}, {x: CONFIG_ALT[x]}]))
+            if y in MODEL_OPTIONS:
+                out.append((f"{x} and {y} in one call", [{x: CONFIG_ALT[x], y: CONFIG_ALT[y]}]))
+                out.append((f"{x}, then {y} set to its default", [{x: CONFIG_ALT[x]}, {y: dflt[y]}]))
+    alls = {x: CONFIG_ALT[x] for x in opts}
+    out.append(("all in one call", [alls]))
+    out.append(("one call per option", [{x: alls[x]} for x in opts]))
+    out.append(("one call per option, reversed", [{x: alls[x]} for x in reversed(opts)]))
+    return dflt, out
+
+
+def config_plumbing(ck, fw):
+    plan = {role: config_cases(role) for role in ("server", "client")}
+    allc = [dict(role=role, config_calls=calls) for role in plan for _, calls in plan[role][1]]
+    allr = run_cases(ck, fw, allc, timeout=600)
+    ck.evaluations += len(allc)
+    for role in plan:
+        dflt, seqs = plan[role]
+        cases, res = allc[:len(seqs)], allr[:len(seqs)]
+        allc, allr = allc[len(seqs):], allr[len(seqs):]
+        reported = set()
+        for (label, calls), c, r in zip(seqs, cases, res):
+            want = dict(dflt)
+            for kw in calls:
+                want.update(kw)
+            got = r["options"]
+            ck.bump("config_sequences")
+            for k in want:
+                if got.get(k) == want[k]:
+                    continue
+                if k not in MODEL_OPTIONS:
+                    ck.bump(f"config_other_option_differs:{role}/{k}")
+                    continue
+                if (role, k) in reported:
+                    continue
+                reported.add((role, k))
+                ck.violation(f"config/{role}/{k}",
+                             f"[{fw}] {role} factory, setProtocolOptions calls {json.dumps(calls)} ({label}), then connect and complete "
+                             f"the handshake: the protocol works with {k}={got.get(k)!r}, configured is {want[k]!r}",
+                             {"fw": fw, "case": c, "observed": r, "expected_options": want}, found_input=True)
+
+
 KNOWN_FAMILIES = ("control-callback-after-violation", "processing-after-close-frame")
 
 
@@ -413,6 +500,8 @@ def run(ck):
     seq_runs = [("tx", False), ("aio", False), ("tx", True)] + ([] if quick else [("aio", True)])
     for fw0, nvx in seq_runs:
         fw = fw0 + ("/nvx" if nvx else "")
+        if not nvx:
+            config_plumbing(ck, fw0)
         cases, meta = [], []
         for role in ("server", "client"):
             seqs = [("corpus", bytes.fromhex(c["stream"])) for c in corpus if c.get("role", role) == role]
